@@ -434,6 +434,40 @@ def shared_state(ctx):
                             writers.append((fn, n))
             for fn, n in writers:
                 ok = (mod, name, fn.qn) == ('qstrader.settings', 'PRINT_EVENTS', 'qstrader.settings.set_print_events')
+                # a module-level table whose entries are filed under the INSTANCE they belong to (TABLE.setdefault(self, {}), TABLE[self][k] = v) is per-instance state
+                # kept outside the instance: nothing of it can reach another object.  Filed under id(self) it is not: ids are reused once an object is collected.
+                topkey = None
+                if isinstance(n, ast.Call) and n.args and n.func.attr in ('setdefault', 'pop') and isinstance(n.func.value, (ast.Name, ast.Attribute)):
+                    topkey = n.args[0]
+                else:
+                    for t_ in (n.targets if isinstance(n, (ast.Assign, ast.Delete)) else [getattr(n, 'target', None)]):
+                        b_ = t_
+                        while isinstance(b_, ast.Subscript) and isinstance(b_.value, ast.Subscript):
+                            b_ = b_.value
+                        if isinstance(b_, ast.Subscript) and isinstance(b_.value, (ast.Name, ast.Attribute)):
+                            topkey = b_.slice
+                        elif isinstance(n, ast.Call) and isinstance(n.func.value, ast.Subscript):
+                            pass
+                if topkey is None and isinstance(n, ast.Call):
+                    b_ = n.func.value
+                    while isinstance(b_, ast.Subscript) and isinstance(b_.value, ast.Subscript):
+                        b_ = b_.value
+                    if isinstance(b_, ast.Subscript):
+                        topkey = b_.slice
+                inner = fn
+                for g_ in getattr(fn, 'nested', {}).values():
+                    if any(x_ is n for x_ in ast.walk(g_.node)):
+                        inner = g_
+                first = inner.pos_params[0] if inner.pos_params else None
+                if not ok and first == 'self' and isinstance(topkey, ast.Name) and topkey.id == 'self':
+                    ctx.holds('C18.shared', 'module-level table %s.%s is filed under the instance each entry belongs to (%s)' % (mod, name, fn.qn), fn.site(n))
+                    continue
+                if not ok and first == 'self' and isinstance(topkey, ast.Call) and isinstance(topkey.func, ast.Name) and topkey.func.id == 'id' and len(topkey.args) == 1 \
+                        and isinstance(topkey.args[0], ast.Name) and topkey.args[0].id == 'self':
+                    ctx.violation('C18.shared', 'module-level state %s.%s is never written at run time (%s)' % (mod, name, fn.qn), fn.site(n),
+                                  'entries are filed under id(self): the id of a collected object is handed to a later one, which then finds the dead object\'s entries',
+                                  key='C18.shared|%s.%s|%s' % (mod, name, fn.qn))
+                    continue
                 ctx.require(ok, 'C18.shared', 'module-level state %s.%s is never written at run time (%s)' % (mod, name, fn.qn), fn.site(n),
                             'state that outlives a session makes a later run depend on an earlier one', key='C18.shared|%s.%s|%s' % (mod, name, fn.qn))
             if mutable and not writers:
